@@ -64,10 +64,14 @@ fn has_permission(
         client.is_admin_auth()
     } else {
         let selected_db_user_name = client.selected_db_user_name().unwrap_or("all".to_string());
-        let permisions = db.get_value(String::from(format!(
-            "$$permission_${}",
-            selected_db_user_name
-        )));
+        // (a list that was removed after it had reached the disk is still in memory as a tombstone:
+        // it is no list, not a list that grants nothing)
+        let permisions = db
+            .get_value(String::from(format!(
+                "$$permission_${}",
+                selected_db_user_name
+            )))
+            .filter(|value| value.state != ValueStatus::Deleted);
         log::debug!("permisions: {:?}", permisions);
         match permisions {
             Some(permisions) => {
